@@ -82,7 +82,9 @@ def run(chk):
         to_py = lambda s: s[1]
         enc = lambda s: [0, id_code(s[1])] if s[0] == 'name' else [1, s[1]] if s[0] == 'num' else [2]
         # the server's status reply
-        ver_name = 'SomeServer 1.x'
+        # the version name is free text chosen by the server
+        ver_name = rng.choice(['SomeServer 1.x', 'SomeServer 1.x', 'Paper 1.8.8 (100% vanilla)', '%server_version%', '%s', '%d%%', '{0} {name}', '',
+                               '\u00a7aBungee 1.8-1.18', 'x' * 300, '1.12.2\n', '%(protocol)s', '\\x00 "quoted"'])
         if beh[0] == 'closed':
             status = None
         elif beh[0] == 'empty':
@@ -127,7 +129,7 @@ def run(chk):
                 if raised:
                     e = raised[0]
                     if isinstance(e, VersionMismatch):
-                        o['outcome'] = [1, e.server_protocol, 'supported, but not allowed' in str(e), 'not supported' in str(e), str(e.server_protocol) in str(e), e.server_version]
+                        o['outcome'] = [1, e.server_protocol, 'supported, but not allowed' in str(e), 'not supported' in str(e), str(e.server_protocol) in str(e), e.server_version, ver_name, ver_name in str(e)]
                     elif isinstance(e, IOError) and 'Invalid server status' in str(e):
                         o['outcome'] = [2]
                     else:
@@ -169,6 +171,8 @@ def run(chk):
                     what = 'the mismatch error says %s; protocol %d is %s' % ('"supported, but not allowed"' if oo[2] else '"not supported"', out[1], 'supported' if out[2] else 'not supported')
                 elif not oo[4]:
                     what = 'the mismatch error does not name the server\'s protocol %d' % out[1]
+                elif oo[5] != oo[6] or not oo[7]:
+                    what = 'the mismatch error does not carry the server\'s version name %r (server_version=%r)' % (oo[6], oo[5])
             elif out[0] == 2 and o['outcome'] != [2]:
                 what = 'outcome %s; an empty status object must be rejected as invalid' % (o['outcome'],)
         if what:
